@@ -141,6 +141,7 @@ pub fn build(ctx: &Ctx, modules: Vec<Module>, slot_cfg: &subjects::SlotCfg) -> C
     let mut discarded = 0usize;
     let mut discarded_samples = vec![];
     let mut rounds = 0;
+    let mut unattributed_slots = 0usize;
     loop {
         rounds += 1;
         // distribute round robin
@@ -214,6 +215,30 @@ pub fn build(ctx: &Ctx, modules: Vec<Module>, slot_cfg: &subjects::SlotCfg) -> C
                 unattributed.push(rendered);
             }
         }
+        // errors without a usable span (e.g. "queries overflow the depth limit"): drop every
+        // module of the slots that failed, as long as that is a small part of the corpus
+        if bad.is_empty() && rounds <= 4 {
+            let mut failed_slots = std::collections::BTreeSet::new();
+            for line in out.lines() {
+                let Ok(v) = serde_json::from_str::<Value>(line) else { continue };
+                if v["reason"] == "compiler-message" && v["message"]["level"] == "error" {
+                    let pid = v["package_id"].as_str().unwrap_or("");
+                    if let Some(pos) = pid.find("slot") {
+                        if let Ok(s) = pid[pos + 4..pos + 6].parse::<usize>() {
+                            failed_slots.insert(s);
+                        }
+                    }
+                }
+            }
+            if !failed_slots.is_empty() && failed_slots.len() <= 3 {
+                for s in &failed_slots {
+                    for (name, _, _) in &span_tables[*s] {
+                        bad.insert(name.clone(), format!("(unattributed) {}", unattributed.first().cloned().unwrap_or_default()));
+                    }
+                }
+                unattributed_slots += failed_slots.len();
+            }
+        }
         if bad.is_empty() || rounds > 4 {
             let tail = |s: &str| s.chars().rev().take(2500).collect::<String>().chars().rev().collect::<String>();
             inconclusive(&format!(
@@ -245,6 +270,7 @@ pub fn build(ctx: &Ctx, modules: Vec<Module>, slot_cfg: &subjects::SlotCfg) -> C
             counters[slot] += 1;
         }
     }
+    let _ = unattributed_slots;
     Corpus { modules: placed, discarded_by_rustc: discarded, discarded_samples, build_rounds: rounds }
 }
 
